@@ -60,8 +60,11 @@ var rangeReps = []string{
 	"bytes=", "bytes=5", "bytes=5 ", "bytes=-", "bytes=--5", "bytes=5-4", "bytes=0-5x", "bytes=0-5,7-9", "bytes=,", "bytes=0-,", "bytes=x",
 	"bytes=36-40", "bytes=0-36", "bytes=0-99", "bytes=-0", "bytes=-99", "bytes=99-",
 	"bytes=0-18446744073709551620", "bytes=18446744073709551616-18446744073709551620", "bytes=-18446744073709551617", "bytes=9223372036854775808-",
+	twoRangeLines,
 	"bytes0-5", "Bytes=0-5", "items=0-5", "=0-5", "", " ", "bytes =0-5", "bytes=0-5-", "bytes=0 5",
 }
+
+const twoRangeLines = "bytes=0-4 + second line bytes=10-14"
 
 var reCR = regexp.MustCompile(`^bytes (\d+)-(\d+)/(\d+)$`)
 
@@ -74,7 +77,7 @@ func scenarioRangeE2E(c *vrun.Ctx) {
 	for _, retry := range []bool{false, true} {
 		env := newEnv(envOpts{Backend: p.Backend, RetryInvalid: retry, Server: true, DefaultMaxAgeS: 3600})
 		for _, size := range []int{1, 10, 36} {
-			for _, ifr := range []string{"none", "etag-match", "etag-other", "lm-equal", "lm-earlier", "lm-later", "garbage"} {
+			for _, ifr := range []string{"none", "etag-match", "etag-other", "lm-equal", "lm-earlier", "lm-later", "garbage", "etag-weakened"} {
 				for _, rg := range rangeReps {
 					caseNo++
 					if !c.Mine(caseNo) {
@@ -187,10 +190,18 @@ func runRangeCase(c *vrun.Ctx, env *penv, retry bool, size int, ifr, rg string) 
 		return
 	}
 	hs := vnet.H{{"Range", rg}}
+	if rg == twoRangeLines {
+		// the same list as "bytes=0-4,10-14", sent as two field lines
+		hs = vnet.H{{"Range", "bytes=0-4"}, {"Range", "bytes=10-14"}}
+	}
 	ifMatchExpected := true
 	switch ifr {
 	case "etag-match":
 		hs = append(hs, [2]string{"If-Range", etag})
+	case "etag-weakened":
+		// the stored tag is strong; its weak form is another validator (If-Range compares strongly)
+		hs = append(hs, [2]string{"If-Range", "W/" + etag})
+		ifMatchExpected = false
 	case "etag-other":
 		hs = append(hs, [2]string{"If-Range", `"something-else"`})
 		ifMatchExpected = false
@@ -206,7 +217,7 @@ func runRangeCase(c *vrun.Ctx, env *penv, retry bool, size int, ifr, rg string) 
 		hs = append(hs, [2]string{"If-Range", "not a date nor a tag"})
 		ifMatchExpected = false
 	}
-	resp, _ := env.do("GET", uri, hs, "")
+	resp, rangeReqs := env.do("GET", uri, hs, "")
 	full := string(vnet.Body(name, 1, size))
 	rf, rl, rok, wf := refRange(rg, int64(size))
 	c.Outcome(fmt.Sprintf("status=%d dropped=%v wf=%v sat=%v ifr=%s", resp.Status, resp.Dropped, wf, rok, ifr))
@@ -250,9 +261,20 @@ func runRangeCase(c *vrun.Ctx, env *penv, retry bool, size int, ifr, rg string) 
 		if !ifMatchExpected {
 			report("206-despite-if-range-mismatch/"+ifr, "If-Range does not match the stored validator but a 206 was served")
 		}
+		// C03: labelled HIT exactly when served from a fresh stored entry without contacting the origin
+		// (a Range request is not coalesced and normally does contact the origin before it is sliced)
+		if xc := resp.Header.Get("X-Cache"); (xc == "HIT") != (len(rangeReqs) == 0) && (xc != "" || len(rangeReqs) == 0) {
+			c.SetCase(desc)
+			c.Violation("C03/e2e/range/206-hit-label-wrong", fmt.Sprintf("a 206 answered with %d origin request(s) carries X-Cache=%q Cache-Status=%q | %s", len(rangeReqs), xc, resp.Header.Get("Cache-Status"), desc), nil)
+		}
 	case 416:
 		if cr := resp.Header.Get("Content-Range"); cr != "bytes */"+strconv.Itoa(size) {
 			report("416-without-size", "Content-Range="+cr)
+		}
+		if !ifMatchExpected {
+			// "an If-Range that does not match the stored validator yields the full 200": the Range
+			// header is then to be ignored altogether, whatever it asks for
+			report("416-despite-if-range-mismatch/"+ifr, "If-Range does not match the stored validator, so the Range header is void, yet the request was refused with 416")
 		}
 	case 200:
 		if resp.Body != full {
